@@ -591,6 +591,51 @@ func c19ValidReq(r *rand.Rand) *c19Req {
 	return &c19Req{Hashes: hs, Amount: c19ValidAmount(r), BN: c19ValidInt(r), DS: c19ValidInt(r), DE: c19ValidInt(r)}
 }
 
+// valid requests whose hash list repeats entries: the property hands over "exactly the request's
+// values with the hashes joined in order", repeats included
+const c19DupModes = 7
+
+func c19DupReq(r *rand.Rand, mode int) *c19Req {
+	req := c19ValidReq(r)
+	a, b, c := c19ValidHash(r), c19ValidHash(r), c19ValidHash(r)
+	cp := func(h []byte) []byte { return append([]byte{}, h...) }
+	switch mode {
+	case 0: // adjacent repeat
+		req.Hashes = [][]byte{cp(a), cp(a)}
+	case 1: // non-adjacent repeat
+		req.Hashes = [][]byte{cp(a), cp(b), cp(a)}
+	case 2: // all equal, 2..40 entries
+		n := 2 + r.Intn(39)
+		req.Hashes = make([][]byte, n)
+		for i := range req.Hashes {
+			req.Hashes[i] = cp(a)
+		}
+	case 3: // case variants are different strings; one true repeat among them
+		lo, up := []byte(strings.ToLower(string(a))), []byte(strings.ToUpper(string(a)))
+		mixed := cp(lo)
+		for i := range mixed {
+			if i%2 == 0 {
+				mixed[i] = up[i]
+			}
+		}
+		req.Hashes = [][]byte{lo, up, mixed, cp(lo)}
+		r.Shuffle(len(req.Hashes), func(i, j int) { req.Hashes[i], req.Hashes[j] = req.Hashes[j], req.Hashes[i] })
+	case 4: // 2..40 entries drawn from a pool of 1..3 hashes
+		pool := [][]byte{a, b, c}[:1+r.Intn(3)]
+		n := 2 + r.Intn(39)
+		req.Hashes = make([][]byte, n)
+		for i := range req.Hashes {
+			req.Hashes[i] = cp(pool[r.Intn(len(pool))])
+		}
+		req.Hashes[n-1] = cp(req.Hashes[0])
+	case 5: // a longer list of distinct hashes whose first entry comes back at the end
+		req.Hashes = append(req.Hashes, cp(b), cp(c), cp(req.Hashes[0]))
+	default: // runs: a a b b b c a
+		req.Hashes = [][]byte{cp(a), cp(a), cp(b), cp(b), cp(b), cp(c), cp(a)}
+	}
+	return req
+}
+
 func c19BadHashes(r *rand.Rand, hs [][]byte) [][]byte {
 	switch r.Intn(5) {
 	case 0:
@@ -897,6 +942,14 @@ func TestVerifC19(t *testing.T) {
 	}
 	send("nil-request", &c19Req{Nil: true}, "send")
 
+	// 2a. repeated hashes inside one (valid) request, direct and through gRPC
+	for m := 0; m < c19DupModes; m++ {
+		for k := 0; k < 3; k++ {
+			send("duplicates", c19DupReq(r, m), "send")
+		}
+		send("duplicates", c19DupReq(r, m), "grpc")
+	}
+
 	// 2b. bytes versus runes: multi-byte digits and invalid UTF-8 at the first and the last position of
 	// a hash (once with 64 bytes in total, once with 64 runes in total) and of an amount
 	for _, seq := range []string{"é", "٣", "３", "\U0001D7D1", "\xff", "\x80", "\xc3", "\xa9", "\xc0\xb1", "\xed\xa0\x80",
@@ -926,8 +979,12 @@ func TestVerifC19(t *testing.T) {
 	// 3. random streams
 	for i := 0; i < e.N; i++ {
 		switch i % 5 {
-		case 0, 1: // valid requests with rich commitment contents
-			send("valid", c19ValidReq(r), "send")
+		case 0, 1: // valid requests with rich commitment contents (one in four repeats hashes)
+			if r.Intn(4) == 0 {
+				send("duplicates", c19DupReq(r, r.Intn(c19DupModes)), "send")
+			} else {
+				send("valid", c19ValidReq(r), "send")
+			}
 		case 2: // one perturbed field
 			req := c19ValidReq(r)
 			switch r.Intn(5) {
@@ -963,7 +1020,9 @@ func TestVerifC19(t *testing.T) {
 			send("all-fields", req, "send")
 		default: // through a real gRPC server (falls back to the direct path when not expressible)
 			req := c19ValidReq(r)
-			if r.Intn(2) == 0 {
+			if r.Intn(4) == 0 {
+				req = c19DupReq(r, r.Intn(c19DupModes))
+			} else if r.Intn(2) == 0 {
 				switch r.Intn(3) {
 				case 0:
 					req.Hashes = c19BadHashes(r, req.Hashes)
